@@ -126,6 +126,7 @@ type kernel struct {
 	foreign  int
 
 	spawned        int
+	leftBehind     bool
 	anyBlocking    bool
 	klock          sync.Mutex
 	blockEvents    int
@@ -764,10 +765,16 @@ func (k *kernel) runBubble(body func(t *task)) {
 		k.mu.Lock()
 		holder := k.cur
 		var runnable []*task
+		// the run is over when every caller task is done and no goroutine the library started
+		// can run: whatever it left blocked or sleeping (a leaked worker, a janitor) is abandoned
 		alive := 0
+		left := false
 		for _, t := range k.tasks {
-			if t.state != stDone {
+			if t.state != stDone && (!t.dynamic || t.state == stRunnable || t.state == stRunning) {
 				alive++
+			}
+			if t.state != stDone && t.dynamic {
+				left = true
 			}
 			if t.state == stRunnable {
 				runnable = append(runnable, t)
@@ -784,6 +791,7 @@ func (k *kernel) runBubble(body func(t *task)) {
 			continue
 		}
 		if alive == 0 {
+			k.leftBehind = left
 			break
 		}
 		if len(runnable) == 0 {
